@@ -436,4 +436,442 @@ theorem exists_closed_cell {xp : List K} (h : Inc xp) (hn : 2 ≤ xp.length) {x 
       rw [this]; exact h2
     · exact hr
 
+/-! ## the reference piecewise-linear interpolant -/
+
+/-- Reference: the piecewise-linear interpolant through the nodes, extended by constants, written by
+ recursion on the node list (no search, no indices, no guard). -/
+def pwlRef : List K → List K → K → K
+  | [_], [f0], _ => f0
+  | x0 :: x1 :: xs, f0 :: f1 :: fs, x =>
+      if x < x0 then f0
+      else if x ≤ x1 then f0 + (x - x0) / (x1 - x0) * (f1 - f0)
+      else pwlRef (x1 :: xs) (f1 :: fs) x
+  | _, _, _ => 0
+
+theorem pwlRef_left {xp fp : List K} (hl : xp.length = fp.length) (hn : 1 ≤ xp.length) {x : K}
+    (hx : x < xp.getD 0 0) : pwlRef xp fp x = fp.getD 0 0 := by
+  match xp, fp, hl, hn with
+  | [a], [f], _, _ => simp [pwlRef]
+  | a :: b :: t, f0 :: f1 :: ft, _, _ =>
+    have hx' : x < a := by simpa using hx
+    simp [pwlRef, hx']
+
+theorem pwlRef_cell : ∀ (j : Nat) {xp fp : List K}, Inc xp → xp.length = fp.length →
+    j + 1 < xp.length → ∀ {x : K}, xp.getD j 0 ≤ x → x ≤ xp.getD (j + 1) 0 →
+    pwlRef xp fp x = cellFormula xp fp j x := by
+  intro j
+  induction j with
+  | zero =>
+    intro xp fp hi hl hj x h1 h2
+    match xp, fp, hl, hj with
+    | a :: b :: t, f0 :: f1 :: ft, _, _ =>
+      have h1' : a ≤ x := by simpa using h1
+      have h2' : x ≤ b := by simpa using h2
+      simp [pwlRef, cellFormula, not_lt.mpr h1', h2']
+  | succ j ih =>
+    intro xp fp hi hl hj x h1 h2
+    match xp, fp, hl, hj with
+    | a :: b :: t, f0 :: f1 :: ft, hl, hj =>
+      have hi' : Inc (b :: t) := hi.tail
+      have hab : a < b := by
+        have := hi.getD_lt (i := 0) (j := 1) (by omega) (by simp)
+        simpa using this
+      have h1' : (b :: t).getD j 0 ≤ x := by simpa using h1
+      have h2' : x ≤ (b :: t).getD (j + 1) 0 := by simpa using h2
+      have hbj : b ≤ (b :: t).getD j 0 := by
+        have := hi'.getD_le (Nat.zero_le j) (by simp at hj ⊢; omega)
+        simpa using this
+      have hbx : b ≤ x := le_trans hbj h1'
+      have hna : ¬ x < a := not_lt.mpr (le_trans hab.le hbx)
+      have hcf : cellFormula (a :: b :: t) (f0 :: f1 :: ft) (j + 1) x
+          = cellFormula (b :: t) (f1 :: ft) j x := by
+        simp [cellFormula]
+      rw [hcf]
+      by_cases hxb : x ≤ b
+      · -- tie with the right node of the first cell
+        have hxeq : x = b := le_antisymm hxb hbx
+        have hj0 : j = 0 := by
+          have he : (b :: t).getD j 0 = (b :: t).getD 0 0 := by
+            simp only [List.getD_cons_zero]
+            exact le_antisymm (hxeq ▸ h1') hbj
+          exact hi'.getD_inj (by simp at hj ⊢; omega) (by simp) he
+        subst hj0
+        have hne : b - a ≠ 0 := ne_of_gt (sub_pos.mpr hab)
+        rw [hxeq] at hna ⊢
+        simp only [pwlRef, if_neg hna, le_refl, if_true, cellFormula, List.getD_cons_zero, sub_self,
+          zero_div, zero_mul, add_zero]
+        rw [div_self hne]; ring
+      · simp only [pwlRef, if_neg hna, if_neg hxb]
+        exact ih hi' (by simpa using hl) (by simp at hj ⊢; omega) h1' h2'
+
+theorem pwlRef_right : ∀ {xp fp : List K}, Inc xp → xp.length = fp.length → 1 ≤ xp.length →
+    ∀ {x : K}, xp.getD (xp.length - 1) 0 < x → pwlRef xp fp x = fp.getD (fp.length - 1) 0 := by
+  intro xp
+  induction xp with
+  | nil => intro fp _ _ hn; simp at hn
+  | cons a t ih =>
+    intro fp hi hl hn x hx
+    match t, fp, hl with
+    | [], [f], _ => simp [pwlRef]
+    | b :: t', f0 :: f1 :: ft, hl =>
+      have hi' : Inc (b :: t') := hi.tail
+      have hx' : (b :: t').getD ((b :: t').length - 1) 0 < x := by simpa using hx
+      have hbx : b < x := by
+        have := hi'.getD_le (Nat.zero_le ((b :: t').length - 1)) (by simp)
+        simp only [List.getD_cons_zero] at this
+        exact lt_of_le_of_lt this hx'
+      have hab : a < b := by
+        have := hi.getD_lt (i := 0) (j := 1) (by omega) (by simp)
+        simpa using this
+      have hna : ¬ x < a := not_lt.mpr (le_trans hab.le hbx.le)
+      have hnb : ¬ x ≤ b := not_le.mpr hbx
+      simp only [pwlRef, if_neg hna, if_neg hnb]
+      rw [ih hi' (by simpa using hl) (by simp) hx']
+      simp
+
+/-! ## padding by linear continuation (`_extrapolate_left/right/both`) -/
+
+theorem extrapLeft_cons2 (a b : K) (t : List K) :
+    extrapLeft (a :: b :: t) = (a - (b - a)) :: a :: b :: t := by
+  simp [extrapLeft]
+
+theorem extrapRight_eq (y : List K) :
+    extrapRight y
+      = y ++ [y.getD (y.length - 1) 0 + (y.getD (y.length - 1) 0 - y.getD (y.length - 2) 0)] := by
+  unfold extrapRight; rw [getLastD_eq_getD]
+
+theorem Inc.head_lt {a b : K} {t : List K} (h : Inc (a :: b :: t)) : a < b := by
+  have := h.getD_lt (i := 0) (j := 1) (by omega) (by simp)
+  simpa using this
+
+/-- one more cell on the left, continuing the line of the first cell, changes nothing -/
+theorem linearExtrap_extrapLeft {xp fp : List K} (hi : Inc xp) (hl : xp.length = fp.length)
+    (hn : 2 ≤ xp.length) (x : K) :
+    linearExtrap (extrapLeft xp) (extrapLeft fp) x = linearExtrap xp fp x := by
+  match xp, fp, hl, hn with
+  | a :: b :: t, f0 :: f1 :: ft, hl, _ =>
+    rw [extrapLeft_cons2, extrapLeft_cons2]
+    have hab : a < b := hi.head_lt
+    have hne : b - a ≠ 0 := ne_of_gt (sub_pos.mpr hab)
+    have hi' : Inc ((a - (b - a)) :: a :: b :: t) := by
+      refine List.pairwise_cons.mpr ⟨fun c hc => ?_, hi⟩
+      have hac : a ≤ c := by
+        rcases List.mem_cons.mp hc with rfl | hc'
+        · exact le_rfl
+        · exact ((List.pairwise_cons.mp hi).1 c hc').le
+      linarith
+    have hl' : ((a - (b - a)) :: a :: b :: t).length = ((f0 - (f1 - f0)) :: f0 :: f1 :: ft).length := by
+      simp at hl ⊢; omega
+    obtain ⟨j, hj, hc⟩ := exists_cell hi (by simp) x
+    rw [linearExtrap_cell hi hl hj hc]
+    by_cases hcase : j = 0 ∧ x < a
+    · obtain ⟨rfl, hxa⟩ := hcase
+      have hc' : InCell ((a - (b - a)) :: a :: b :: t) 0 x :=
+        ⟨Or.inl rfl, Or.inr (by simpa using hxa.le)⟩
+      rw [linearExtrap_cell hi' hl' (by simp) hc']
+      simp only [cellFormula, List.getD_cons_zero, List.getD_cons_succ]
+      have e : a - (a - (b - a)) = b - a := by ring
+      rw [e]
+      field_simp
+      ring
+    · have hax : (a :: b :: t).getD j 0 ≤ x := by
+        rcases hc.1 with rfl | h
+        · have : ¬ x < a := fun hx => hcase ⟨rfl, hx⟩
+          simpa using not_lt.mp this
+        · exact h
+      have hc' : InCell ((a - (b - a)) :: a :: b :: t) (j + 1) x := by
+        refine ⟨Or.inr (by simpa using hax), ?_⟩
+        rcases hc.2 with h | h
+        · left; simp at h ⊢; omega
+        · right; simpa using h
+      rw [linearExtrap_cell hi' hl' (by simp at hj ⊢; omega) hc']
+      simp [cellFormula]
+
+/-- one more cell on the right, continuing the line of the last cell, changes nothing -/
+theorem linearExtrap_extrapRight {xp fp : List K} (hi : Inc xp) (hl : xp.length = fp.length)
+    (hn : 2 ≤ xp.length) (x : K) :
+    linearExtrap (extrapRight xp) (extrapRight fp) x = linearExtrap xp fp x := by
+  rw [extrapRight_eq, extrapRight_eq, ← hl]
+  set n := xp.length with hnn
+  have hgap : xp.getD (n - 2) 0 < xp.getD (n - 1) 0 := hi.getD_lt (by omega) (by omega)
+  set r := xp.getD (n - 1) 0 + (xp.getD (n - 1) 0 - xp.getD (n - 2) 0) with hr
+  set s := fp.getD (n - 1) 0 + (fp.getD (n - 1) 0 - fp.getD (n - 2) 0) with hs
+  have hi' : Inc (xp ++ [r]) := by
+    refine List.pairwise_append.mpr ⟨hi, List.pairwise_singleton _ _, fun a ha b hb => ?_⟩
+    rw [List.mem_singleton.mp hb]
+    obtain ⟨i, hi1, rfl⟩ := List.mem_iff_getElem.mp ha
+    have := hi.getD_le (i := i) (j := n - 1) (by omega) (by omega)
+    rw [List.getD_eq_getElem _ _ hi1] at this
+    linarith
+  have hl' : (xp ++ [r]).length = (fp ++ [s]).length := by simp; omega
+  obtain ⟨j, hj, hc⟩ := exists_cell hi hn x
+  rw [linearExtrap_cell hi hl hj hc]
+  have g1 : ∀ i, i < n → (xp ++ [r]).getD i 0 = xp.getD i 0 := fun i h => List.getD_append _ _ _ _ h
+  have g2 : ∀ i, i < n → (fp ++ [s]).getD i 0 = fp.getD i 0 :=
+    fun i h => List.getD_append _ _ _ _ (by omega)
+  have g3 : (xp ++ [r]).getD n 0 = r := by
+    rw [List.getD_append_right _ _ _ _ (le_refl _)]; simp
+  have g4 : (fp ++ [s]).getD n 0 = s := by
+    rw [List.getD_append_right _ _ _ _ (by omega)]
+    have : n - fp.length = 0 := by omega
+    rw [this]; simp
+  by_cases hcase : j + 2 = n ∧ xp.getD (n - 1) 0 < x
+  · obtain ⟨hjn, hxl⟩ := hcase
+    have e1 : j + 1 = n - 1 := by omega
+    have e2 : j = n - 2 := by omega
+    have hc' : InCell (xp ++ [r]) (j + 1) x := by
+      refine ⟨Or.inr ?_, Or.inl (by simp; omega)⟩
+      rw [g1 _ (by omega), e1]; exact hxl.le
+    rw [linearExtrap_cell hi' hl' (by simp; omega) hc']
+    unfold cellFormula
+    rw [g1 _ (by omega), g2 _ (by omega), show j + 1 + 1 = n by omega, g3, g4, e1, e2]
+    have hne : xp.getD (n - 1) 0 - xp.getD (n - 2) 0 ≠ 0 := ne_of_gt (sub_pos.mpr hgap)
+    have e : r - xp.getD (n - 1) 0 = xp.getD (n - 1) 0 - xp.getD (n - 2) 0 := by rw [hr]; ring
+    rw [e, hs]
+    field_simp
+    ring
+  · have hxr : x ≤ xp.getD (j + 1) 0 := by
+      rcases hc.2 with h | h
+      · have : ¬ xp.getD (n - 1) 0 < x := fun hx => hcase ⟨h, hx⟩
+        have e1 : j + 1 = n - 1 := by omega
+        rw [e1]; exact not_lt.mp this
+      · exact h
+    have hc' : InCell (xp ++ [r]) j x := by
+      refine ⟨?_, Or.inr ?_⟩
+      · rcases hc.1 with h | h
+        · exact Or.inl h
+        · right; rw [g1 _ (by omega)]; exact h
+      · rw [g1 _ (by omega)]; exact hxr
+    rw [linearExtrap_cell hi' hl' (by simp; omega) hc']
+    unfold cellFormula
+    rw [g1 _ (by omega), g1 _ (by omega), g2 _ (by omega), g2 _ (by omega)]
+
+theorem Sep.extrapLeft {eps : K} {xp : List K} (hs : Sep eps xp) (hn : 2 ≤ xp.length) :
+    Sep eps (extrapLeft xp) := by
+  match xp, hn with
+  | a :: b :: t, _ =>
+    rw [extrapLeft_cons2]
+    intro j hj
+    cases j with
+    | zero =>
+      have := hs 0 (by simp)
+      simp only [List.getD_cons_zero, List.getD_cons_succ] at this ⊢
+      linarith
+    | succ j =>
+      have := hs j (by simp at hj ⊢; omega)
+      simpa using this
+
+theorem Sep.extrapRight {eps : K} {xp : List K} (hs : Sep eps xp) (hn : 2 ≤ xp.length) :
+    Sep eps (extrapRight xp) := by
+  rw [extrapRight_eq]
+  intro j hj
+  by_cases h : j + 1 < xp.length
+  · rw [List.getD_append _ _ _ _ h, List.getD_append _ _ _ _ (by omega)]
+    exact hs j h
+  · have e : j + 1 = xp.length := by simp at hj; omega
+    rw [List.getD_append_right _ _ _ _ (by omega), List.getD_append _ _ _ _ (by omega)]
+    have := hs (xp.length - 2) (by omega)
+    have e2 : xp.length - 2 + 1 = xp.length - 1 := by omega
+    have e3 : j = xp.length - 1 := by omega
+    have e4 : j + 1 - xp.length = 0 := by omega
+    rw [e2] at this
+    rw [e4, e3]
+    simp only [List.getD_cons_zero]
+    linarith
+
+theorem extrapLeft_length (y : List K) : (extrapLeft y).length = y.length + 1 := by
+  simp [extrapLeft]
+
+theorem extrapRight_length (y : List K) : (extrapRight y).length = y.length + 1 := by
+  simp [extrapRight]
+
+theorem extrapBoth_length (y : List K) : (extrapBoth y).length = y.length + 2 := by
+  simp [extrapBoth, extrapLeft_length, extrapRight_length]
+
+/-- what `k` paddings do to the node set and to the interpolant -/
+structure PadSpec (eps : K) (xp fp xp' fp' : List K) (k : Nat) : Prop where
+  sep : Sep eps xp'
+  len : xp'.length = fp'.length
+  two : 2 ≤ xp'.length
+  head : xp'.getD 0 0 = xp.getD 0 0 - k * (xp.getD 1 0 - xp.getD 0 0)
+  gapL : xp'.getD 1 0 - xp'.getD 0 0 = xp.getD 1 0 - xp.getD 0 0
+  last : xp'.getD (xp'.length - 1) 0
+      = xp.getD (xp.length - 1) 0 + k * (xp.getD (xp.length - 1) 0 - xp.getD (xp.length - 2) 0)
+  gapR : xp'.getD (xp'.length - 1) 0 - xp'.getD (xp'.length - 2) 0
+      = xp.getD (xp.length - 1) 0 - xp.getD (xp.length - 2) 0
+  ext : ∀ x, linearExtrap xp' fp' x = linearExtrap xp fp x
+
+theorem extrapBoth_spec {eps : K} {xp fp : List K} (h0 : 0 ≤ eps) (hs : Sep eps xp)
+    (hl : xp.length = fp.length) (hn : 2 ≤ xp.length) :
+    PadSpec eps xp fp (extrapBoth xp) (extrapBoth fp) 1 := by
+  have hi := hs.inc h0
+  have hsr : Sep eps (Interp.extrapRight xp) := hs.extrapRight hn
+  have hnr : 2 ≤ (Interp.extrapRight xp).length := by rw [extrapRight_length]; omega
+  have hlr : (Interp.extrapRight xp).length = (Interp.extrapRight fp).length := by
+    rw [extrapRight_length, extrapRight_length, hl]
+  have hn' : (extrapBoth xp).length = xp.length + 2 := extrapBoth_length xp
+  -- explicit shape of the padded node list
+  have shape : ∀ y : List K, 2 ≤ y.length →
+      (extrapBoth y).getD 0 0 = y.getD 0 0 - (y.getD 1 0 - y.getD 0 0) ∧
+      (extrapBoth y).getD 1 0 = y.getD 0 0 ∧
+      (extrapBoth y).getD (y.length + 1) 0
+        = y.getD (y.length - 1) 0 + (y.getD (y.length - 1) 0 - y.getD (y.length - 2) 0) ∧
+      (extrapBoth y).getD y.length 0 = y.getD (y.length - 1) 0 := by
+    intro y hy
+    match y, hy with
+    | a :: b :: t, _ =>
+      have e : extrapBoth (a :: b :: t)
+          = (a - (b - a)) :: ((a :: b :: t) ++ [(a :: b :: t).getD ((a :: b :: t).length - 1) 0
+              + ((a :: b :: t).getD ((a :: b :: t).length - 1) 0
+                - (a :: b :: t).getD ((a :: b :: t).length - 2) 0)]) := by
+        unfold extrapBoth
+        rw [extrapRight_eq]
+        exact extrapLeft_cons2 a b _
+      rw [e]
+      refine ⟨by simp, by simp, ?_, ?_⟩
+      · rw [List.getD_cons_succ, List.getD_append_right _ _ _ _ (le_refl _)]; simp
+      · have : (a :: b :: t).length = (a :: b :: t).length - 1 + 1 := by simp
+        rw [this, List.getD_cons_succ, List.getD_append _ _ _ _ (by simp)]
+        simp
+  obtain ⟨s0, s1, s2, s3⟩ := shape xp hn
+  refine ⟨?_, ?_, ?_, ?_, ?_, ?_, ?_, ?_⟩
+  · exact hsr.extrapLeft hnr
+  · rw [extrapBoth_length, extrapBoth_length, hl]
+  · rw [hn']; omega
+  · rw [s0]; simp
+  · rw [s0, s1]; ring
+  · rw [hn', show xp.length + 2 - 1 = xp.length + 1 by omega, s2]; simp
+  · rw [hn', show xp.length + 2 - 1 = xp.length + 1 by omega,
+      show xp.length + 2 - 2 = xp.length by omega, s2, s3]; ring
+  · intro x
+    unfold extrapBoth
+    rw [linearExtrap_extrapLeft (hsr.inc h0) hlr hnr, linearExtrap_extrapRight hi hl hn]
+
+theorem padN_spec {eps : K} (h0 : 0 ≤ eps) : ∀ (k : Nat) (xp fp : List K), Sep eps xp →
+    xp.length = fp.length → 2 ≤ xp.length → PadSpec eps xp fp (padN k xp) (padN k fp) k := by
+  intro k
+  induction k with
+  | zero =>
+    intro xp fp hs hl hn
+    exact ⟨hs, hl, hn, by simp [padN], rfl, by simp [padN], rfl, fun _ => rfl⟩
+  | succ k ih =>
+    intro xp fp hs hl hn
+    have S1 := extrapBoth_spec h0 hs hl hn
+    have S2 := ih (extrapBoth xp) (extrapBoth fp) S1.sep S1.len S1.two
+    show PadSpec eps xp fp (padN k (extrapBoth xp)) (padN k (extrapBoth fp)) (k + 1)
+    refine ⟨S2.sep, S2.len, S2.two, ?_, ?_, ?_, ?_, ?_⟩
+    · rw [S2.head, S1.gapL, S1.head]; push_cast; ring
+    · rw [S2.gapL, S1.gapL]
+    · rw [S2.last, S1.gapR, S1.last]; push_cast; ring
+    · rw [S2.gapR, S1.gapR]
+    · intro x; rw [S2.ext, S1.ext]
+
+/-- `_linear_interp_with_safe_extrap(n = k)`: the unlimited linear extrapolation within `k`
+ end-cell widths of the node range, NaN beyond -/
+theorem safeInterp_eq_linearExtrap {eps : K} {xp fp : List K} (h0 : 0 ≤ eps) (hs : Sep eps xp)
+    (hl : xp.length = fp.length) (hn : 2 ≤ xp.length) (k : Nat) (x : K) :
+    safeInterp eps k xp fp x
+      = if xp.getD 0 0 - k * (xp.getD 1 0 - xp.getD 0 0) ≤ x ∧
+          x ≤ xp.getD (xp.length - 1) 0
+              + k * (xp.getD (xp.length - 1) 0 - xp.getD (xp.length - 2) 0)
+        then some (linearExtrap xp fp x) else none := by
+  have S := padN_spec h0 k xp fp hs hl hn
+  unfold safeInterp
+  rw [interpNan_eq_cases, S.last, S.head, interpCore_eq_cellValue h0 S.sep _ x S.two,
+    ← linearExtrap_eq_cellValue _ _ x S.len S.two, S.ext]
+  by_cases h1 : xp.getD (xp.length - 1) 0
+      + k * (xp.getD (xp.length - 1) 0 - xp.getD (xp.length - 2) 0) < x
+  · rw [if_pos h1, if_neg (fun h => absurd h.2 (not_le.mpr h1))]
+  · rw [if_neg h1]
+    by_cases h2 : x < xp.getD 0 0 - k * (xp.getD 1 0 - xp.getD 0 0)
+    · rw [if_pos h2, if_neg (fun h => absurd h.1 (not_le.mpr h2))]
+    · rw [if_neg h2, if_pos ⟨not_lt.mp h2, not_lt.mp h1⟩]
+
+/-! ## first minimum -/
+
+theorem argminAux_spec : ∀ (t pre : List K) (bi : Nat) (best : K),
+    pre[bi]? = some best →
+    (∀ (j : Nat) (v : K), pre[j]? = some v → best ≤ v) →
+    (∀ (j : Nat) (v : K), j < bi → pre[j]? = some v → best < v) →
+    ∃ m, (pre ++ t)[argminAux best bi pre.length t]? = some m ∧
+      (∀ (j : Nat) (v : K), (pre ++ t)[j]? = some v → m ≤ v) ∧
+      (∀ (j : Nat) (v : K), j < argminAux best bi pre.length t → (pre ++ t)[j]? = some v → m < v) := by
+  intro t
+  induction t with
+  | nil =>
+    intro pre bi best hb hmin hfirst
+    refine ⟨best, by simpa [argminAux] using hb, ?_, ?_⟩
+    · intro j v hv; exact hmin j v (by simpa using hv)
+    · intro j v hj hv; exact hfirst j v (by simpa [argminAux] using hj) (by simpa using hv)
+  | cons a t ih =>
+    intro pre bi best hb hmin hfirst
+    have hbi : bi < pre.length := by
+      by_contra h
+      rw [List.getElem?_eq_none (by omega)] at hb
+      exact absurd hb (by simp)
+    have hassoc : pre ++ a :: t = (pre ++ [a]) ++ t := by simp
+    have hlen : (pre ++ [a]).length = pre.length + 1 := by simp
+    have hsplit : ∀ (j : Nat) (v : K), (pre ++ [a])[j]? = some v → pre[j]? = some v ∨ (j = pre.length ∧ v = a) := by
+      intro j v hv
+      rw [List.getElem?_append] at hv
+      by_cases hj : j < pre.length
+      · left; simpa [hj] using hv
+      · right
+        simp only [hj, if_false] at hv
+        by_cases hj0 : j - pre.length = 0
+        · rw [hj0] at hv
+          simp at hv
+          exact ⟨by omega, hv.symm⟩
+        · obtain ⟨q, hq⟩ : ∃ q, j - pre.length = q + 1 := ⟨j - pre.length - 1, by omega⟩
+          rw [hq] at hv; simp at hv
+    unfold argminAux
+    by_cases hab : a < best
+    · rw [if_pos hab, hassoc, ← hlen]
+      apply ih (pre ++ [a]) pre.length a
+      · simp
+      · intro j v hv
+        rcases hsplit j v hv with h | ⟨_, rfl⟩
+        · exact (lt_of_lt_of_le hab (hmin j v h)).le
+        · exact le_rfl
+      · intro j v hj hv
+        rcases hsplit j v hv with h | ⟨h, _⟩
+        · exact lt_of_lt_of_le hab (hmin j v h)
+        · omega
+    · rw [if_neg hab, hassoc, ← hlen]
+      apply ih (pre ++ [a]) bi best
+      · rw [List.getElem?_append_left hbi]; exact hb
+      · intro j v hv
+        rcases hsplit j v hv with h | ⟨_, rfl⟩
+        · exact hmin j v h
+        · exact not_lt.mp hab
+      · intro j v hj hv
+        rcases hsplit j v hv with h | ⟨h, _⟩
+        · exact hfirst j v hj h
+        · omega
+
+theorem argminFirst_spec (l : List K) (hl : l ≠ []) :
+    ∃ m, l[argminFirst l]? = some m ∧ (∀ (j : Nat) (v : K), l[j]? = some v → m ≤ v) ∧
+      (∀ (j : Nat) (v : K), j < argminFirst l → l[j]? = some v → m < v) := by
+  match l, hl with
+  | a :: t, _ =>
+    have := argminAux_spec t [a] 0 a (by simp)
+      (by
+        intro j v hv
+        cases j with
+        | zero => simp at hv; exact hv.le
+        | succ j => simp at hv)
+      (by intro j v hj; omega)
+    simpa [argminFirst] using this
+
+/-! ## interpolation at all nodes -/
+
+theorem interp_map_nodes_aux {eps : K} {xp fp : List K}
+    (hnode : ∀ j (hj : j < xp.length) (hj' : j < fp.length), interp eps xp fp xp[j] = fp[j])
+    (hl : xp.length = fp.length) : xp.map (interp eps xp fp) = fp := by
+  apply List.ext_getElem
+  · simpa using hl
+  · intro j h1 h2
+    rw [List.getElem_map]
+    exact hnode j (by simpa using h1) h2
+
 end Dino.Interp
